@@ -408,10 +408,16 @@ func (c *closeRT) judge(stopBound time.Duration) {
 			// the call must return by the earliest limit that any event puts on it:
 			// strict after a Close/Stop at its own end, lenient (idle-timeout scale)
 			// after an event at the other end or in the network
+			// 0-RTT connections (HANDSHAKE_NO_WAIT): until the application's first Write the
+			// session does not exist on the wire; only the client's own Close/Stop can concern it
+			early := c.beforeFirstWrite(key, &r, end, blocked)
 			var limit time.Duration = -1
 			var why killRec
 			var bnd time.Duration
 			for _, k := range kills {
+				if early && k.side != "client" {
+					continue
+				}
 				b := 3 * time.Minute
 				if k.side == sideOf(r.conn) {
 					b = stopBound
@@ -435,6 +441,9 @@ func (c *closeRT) judge(stopBound time.Duration) {
 					situation = "dial-completed-after-stop"
 				}
 				c.mu.Unlock()
+				if early {
+					situation = "no-wait-before-first-write"
+				}
 				w.violate("C15", "call-hangs-after-"+kindClass(why.kind)+":"+r.op+":"+situation, "%s: %s started at %v; the session was affected by %s (at the %s side) at %v; %s (bound %v)", r.conn, r.op, r.start, why.kind, why.side, why.at, state, bnd)
 			}
 			// deadlines: a deadline set before a call bounds that call ...
@@ -448,11 +457,21 @@ func (c *closeRT) judge(stopBound time.Duration) {
 					if r.dlUses > 0 {
 						which = "later-call"
 					}
-					w.violate("C15", "deadline-not-honoured:"+which+":"+r.op+":"+sideOf(r.conn)+":"+tr, "%s: %s started at %v with a deadline at %v set earlier and not changed since; it returned at %v (err %q)", r.conn, r.op, r.start, r.deadline, end, r.err)
+					cls := "deadline-not-honoured:" + which + ":" + r.op + ":" + sideOf(r.conn) + ":" + tr
+					if early {
+						cls += ":no-wait-before-first-write"
+					}
+					w.violate("C15", cls, "%s: %s started at %v with a deadline at %v set earlier and not changed since; it returned at %v (err %q)", r.conn, r.op, r.start, r.deadline, end, r.err)
 				}
 			}
 			// ... and nothing but the user's deadline may time a call out
-			if r.err != "" && strings.Contains(strings.ToLower(r.err), "timeout") {
+			killedBefore := false
+			for _, k := range kills {
+				if k.at <= end {
+					killedBefore = true // the call failed because the session was ended or broken: any error will do
+				}
+			}
+			if r.err != "" && strings.Contains(strings.ToLower(r.err), "timeout") && !killedBefore {
 				if r.deadline == 0 || end < r.deadline-tick {
 					w.violate("C15", "timeout-without-deadline:"+r.op+":"+sideOf(r.conn)+":"+tr, "%s: %s started at %v returned a timeout at %v although the deadline in force was %v (0 = none)", r.conn, r.op, r.start, end, r.deadline)
 				}
@@ -462,6 +481,33 @@ func (c *closeRT) judge(stopBound time.Duration) {
 	w.mu.Lock()
 	w.probes["close-calls-recorded"] += len(calls)
 	w.mu.Unlock()
+}
+
+// beforeFirstWrite: r is a client-side call on a 0-RTT connection and no client-side Write on
+// that connection had started by the time r ended (or ever, if r is still blocked).
+func (c *closeRT) beforeFirstWrite(key string, r *callRec, end time.Duration, blocked bool) bool {
+	if sideOf(r.conn) != "client" || r.op != "read" {
+		return false
+	}
+	noWait := false
+	for _, cl := range c.w.clients {
+		for i := range cl.spec.Sessions {
+			if sessKey(cl.idx, cl.spec.Sessions[i].ID) == key && cl.spec.NoWait {
+				noWait = true
+			}
+		}
+	}
+	if !noWait || c.w.Spec.Server.RawMux {
+		return false
+	}
+	c.mu.Lock()
+	defer c.mu.Unlock()
+	for _, o := range c.calls {
+		if o.conn == r.conn && o.op == "write" && (blocked || o.start <= end) {
+			return false
+		}
+	}
+	return true
 }
 
 func sideOf(conn string) string {
